@@ -29,6 +29,9 @@ type Case struct {
 	// Gens, if set, gives the row-class generator in force for each render: 0 none, 1 generator "r", 2 generator "s"
 	// (replaced, installed or removed between renders on the same wrapper); it overrides RowClass/Renders.
 	Gens []int `json:"gens,omitempty"`
+	// CopyTo: after the renders, the wrapper struct is copied by value, the copy's Table is set to a table built
+	// from this second history, and the copy renders: it must show the second table.
+	CopyTo *gen.Script `json:"copy_to,omitempty"`
 }
 
 type parser struct {
@@ -251,6 +254,19 @@ func CheckCase(c Case) *ev.Violation {
 		calls = calls[:0]
 		if err := w.RenderTo(&b); err != nil || b.String() != out {
 			return ev.V("RenderTo wrote %q (err %v), Render returned %q", b.String(), err, out)
+		}
+	}
+	if c.CopyTo != nil {
+		t2, m2 := gen.Build(*c.CopyTo)
+		cp := *w
+		cp.Table = t2
+		cp.SetRowClassGenerator(nil, nil)
+		out, err := cp.Render()
+		if err != nil {
+			return ev.V("render through a copy of the wrapper failed: %v", err)
+		}
+		if v := CheckOutput(out, c, m2, ""); v != nil {
+			return ev.V("a by-value copy of a wrapper that has rendered, pointed at another table: %s", v.Msg)
 		}
 	}
 	return nil
